@@ -28,32 +28,41 @@ def expected_events(blog, clog, focus, ctx):
     return out
 
 
-def run_program(chk, fn, src, twin_src, args, script, gscript, stats):
+def run_program(chk, fn, src, twin_src, args, script, gscript, stats, forced=None):
     import ptera
     names = pylite.bound_names(fn)
     if not names:
         return
-    tmod = progrun.make(twin_src, "verif_c02_twin")
-    tres = progrun.drive(tmod, getattr(tmod, fn["name"]), args, script, gscript)
+    rng = chk.rng
+    # the function may be reached through a caller that calls it twice: the selector then names the caller first
+    # (outer_w > f(ctx) > x); each call of f is a call of its own — a context variable not bound yet in the second
+    # call is omitted, whatever the first call left behind
+    via = fn["name"] != "outer_w" and not fn["generator"] and gscript is None and rng.random() < 0.3
+    wrapper = "\ndef outer_w(*a):\n    %s(*a)\n    return %s(*a)\n" % (fn["name"], fn["name"]) if via else ""
+    entry = "outer_w" if via else fn["name"]
+    tmod = progrun.make(twin_src + wrapper, "verif_c02_twin")
+    tres = progrun.drive(tmod, getattr(tmod, entry), args, script, gscript)
     blog = [(n, v) for n, v in tmod.BLOG]
     clog = list(tmod.CLOG)
     pyprog.drop_module(tmod)
-    rng = chk.rng
     choices = []
     for _ in range(min(4, len(names))):
         focus = rng.choice(names)
         ctx = rng.sample([n for n in names if n != focus], min(len(names) - 1, rng.randrange(0, 3)))
         choices.append((focus, ctx))
-    for focus, ctx in choices:
+    for focus, ctx in (forced or choices):
         sel = "%s(%s) > %s" % (fn["name"], ", ".join(ctx), focus) if ctx else "%s > %s" % (fn["name"], focus)
-        mod = progrun.make(src, "verif_c02_impl")
+        if via:
+            sel = "outer_w > " + sel
+            chk.dist("selector:through-a-caller")
+        mod = progrun.make(src + wrapper, "verif_c02_impl")
         try:
             got = []
             probe = ptera.probing(sel, env=mod.__dict__)
             # the values as they are when the event is delivered (lists can be extended in place later)
             probe.subscribe(lambda e: got.append({k: progrun.plain(v) for k, v in e.items()}))
             with probe:
-                res = progrun.drive(mod, getattr(mod, fn["name"]), args, script, gscript)
+                res = progrun.drive(mod, getattr(mod, entry), args, script, gscript)
         except BaseException as e:  # noqa
             got = "activation/run failed: %s: %s" % (type(e).__name__, str(e)[:100])
             res = None
@@ -97,7 +106,69 @@ def run(chk):
         if i % 40 == 0:
             chk.sample({"source": src, "twin": twin, "args": args, "script": script, "gen_script": gscript})
     chk.cov["oracle"]["twin"] = stats
+    directed(chk)
     equal_but_different(chk, rng)
+
+
+# every position at which Python binds a name, once, with the focus `x` bound THERE (the random programs reach the
+# rarer positions — the else clause of a loop, a handler, a finally clause — only now and then)
+def _fn(body, params=()):
+    return {"name": "f", "params": list(params), "body": body, "generator": False}
+
+
+DIRECTED = [
+    ("else clause of for", _fn([
+        ("for", ("name", "i"), "T(1, 'list', 2)", [("assign", [("name", "y")], "H(2, i)")],
+         [("assign", [("name", "x")], "H(3)"), ("aug", ("name", "x"), "+", "1")]),
+        ("return", "x")])),
+    ("loop target and walrus in the else clause of for", _fn([
+        ("for", ("name", "i"), "T(1, 'list', 1)", [("pass",)],
+         [("for", ("name", "x"), "T(2, 'list', 2)", [("expr", "H(3, x)")], []),
+          ("walrus", "y", "x", "H(4)"), ("walrus", "y", "x", "H(5, y)", "aug")]),
+        ("return", "x")])),
+    ("else clause of for in a generator-free loop left by break: not run", _fn([
+        ("for", ("name", "i"), "T(1, 'list', 2)", [("break",)], [("assign", [("name", "x")], "H(2)")]),
+        ("assign", [("name", "x")], "H(3)"),
+        ("return", "x")])),
+    ("exception name and handler body", _fn([
+        ("try", [("expr", "R(1)")], [("Boom", "x", [("assign", [("name", "y")], "H(2)")]),], [], []),
+        ("try", [("expr", "R(3)")], [("Boom", None, [("assign", [("name", "x")], "H(4)")]),], [], []),
+        ("return", "y")])),
+    ("else and finally clauses of try", _fn([
+        ("try", [("assign", [("name", "y")], "H(1)")], [("Boom", None, [("pass",)])],
+         [("assign", [("name", "x")], "H(2, y)")], [("aug", ("name", "x"), "*", "2")]),
+        ("return", "x")])),
+    ("with target and body", _fn([
+        ("with", "CM(1)", "x", [("assign", [("name", "y")], "H(2)"), ("assign", [("name", "x")], "H(3, y)")]),
+        ("return", "x")])),
+    ("while body and both branches of if", _fn([
+        ("assign", [("name", "x")], "a"),
+        ("while", "C(1)", [("aug", ("name", "x"), "+", "3")]),
+        ("if", "C(2)", [("assign", [("name", "x")], "H(3, x)")], [("ann", "x", "int", "H(4, x)")]),
+        ("return", "x")], params=("a",))),
+    ("tuple, starred, nested and chained targets; import", _fn([
+        ("assign", [("tuple", [("name", "x"), ("name", "y")])], "T(1, 'tuple', 2)"),
+        ("assign", [("tuple", [("name", "y"), ("star", "x")])], "T(2, 'list', 3)"),
+        ("assign", [("tuple", [("name", "y"), ("tuple", [("name", "x"), ("name", "z")])])], "(H(3), T(4, 'tuple', 2))"),
+        ("assign", [("name", "x"), ("name", "z")], "H(5)"),
+        ("import", "math", "x"),
+        ("return", "y")])),
+]
+
+
+def directed(chk):
+    stats = {"programs": 0, "selectors": 0, "events": 0}
+    for label, fn in DIRECTED:
+        src = pylite.render(fn)
+        twin = pylite.render(fn, twin=True)
+        for script in ([True] * 12, [False] * 12, [True, False] * 6):
+            args = [4 for _ in fn["params"]]
+            names = pylite.bound_names(fn)
+            forced = [("x", [])] + ([("x", [n for n in names if n != "x"][:2])] if len(names) > 1 else [])
+            stats["programs"] += 1
+            chk.dist("directed:" + label.split(":")[0][:40])
+            run_program(chk, fn, src, twin, args, script, None, stats, forced=forced)
+    chk.cov["oracle"]["twin_directed"] = stats
 
 
 ESRC = '''
